@@ -48,7 +48,9 @@ def check_extensions(inst: "MdParserConfig", field: dc.Field, value: Any) -> Non
         ]
     )
     if diff:
-        raise ValueError(f"'{field.name}' items not recognised: {diff}")
+        # sorted, as the order of a set differs from process to process
+        unknown = sorted(diff, key=repr)
+        raise ValueError(f"'{field.name}' items not recognised: {unknown}")
     setattr(inst, field.name, set(value))
 
 
